@@ -1256,8 +1256,92 @@ def _drive_real(ctx, thorough, bks, feats, feats_big, classes, class_of_rec, sit
 
 
 
+def concurrent_writer_case(ctx):
+    """A cleanup by directory walk (file cache, no coverage) while another process stores tiles in the same level: the file
+    cache writes a tile to `<tile>.tmp-<n>` and renames it into place (util.fs.write_atomic).  The walk lists a directory
+    first and looks at the files afterwards, so a temporary file it has listed may be gone when it gets there.  The writer is
+    played by the harness at exactly that point (the rename happens when the walk asks for the temporary file); what the
+    clean-up owes is unchanged: every expired tile of the level is removed, the tiles just written and the other levels
+    stay."""
+    import io
+    import contextlib
+    import shutil
+    import tempfile
+    import mapproxy.util.fs as fsmod
+    from mapproxy.config.loader import ProxyConfiguration
+    from mapproxy.seed.config import SeedingConfiguration
+    from mapproxy.seed.cleanup import cleanup
+    from mapproxy.cache.tile import Tile
+    d = tempfile.mkdtemp(prefix='verif-c12-writer-')
+    try:
+        conf = {'services': {'tms': {}},
+                'grids': {'u': {'srs': 'EPSG:3857', 'bbox': [0, 0, 1024, 1024], 'res': [4, 2, 1], 'tile_size': [16, 16], 'origin': 'll'}},
+                'sources': {'s': {'type': 'wms', 'req': {'url': 'http://up.invalid/s', 'layers': 'x'}}},
+                'caches': {'c': {'grids': ['u'], 'sources': ['s'], 'meta_size': [1, 1], 'meta_buffer': 0,
+                                 'cache': {'type': 'file', 'directory': os.path.join(d, 'cache'), 'directory_layout': 'tms'}}},
+                'layers': [{'name': 'l', 'title': 'l', 'sources': ['c']}],
+                'globals': {'cache': {'base_dir': os.path.join(d, 'cd'), 'lock_dir': os.path.join(d, 'l'), 'tile_lock_dir': os.path.join(d, 'tl')}}}
+        sconf = {'cleanups': {'k': {'caches': ['c'], 'grids': ['u'], 'levels': [1], 'remove_before': {'time': '2020-01-01T00:00:00'}}}}
+        pc = ProxyConfiguration(conf, conf_base_dir=d, seed=True, renderd=False)
+        tasks = SeedingConfiguration(sconf, mapproxy_conf=pc).cleanups(['k'])
+        tm = tasks[0].tile_manager
+        grid = tm.grid
+        old = _time.mktime(_time.strptime('2019-06-01T00:00:00', '%Y-%m-%dT%H:%M:%S'))
+        expired, other = [], []
+        for z in range(3):
+            for x in range(grid.grid_sizes[z][0]):
+                for y in range(grid.grid_sizes[z][1]):
+                    p = tm.cache.tile_location(Tile((x, y, z)), create_dir=True)
+                    with open(p, 'wb') as f:
+                        f.write(b'tile')
+                    os.utime(p, (old, old))
+                    (expired if z == 1 else other).append((x, y, z))
+        # the writer: five tiles of level 1 are being written (their old versions are expired tiles of the level)
+        writing = {}
+        for i, c in enumerate([c for c in expired if (c[0] + 2 * c[1]) % 7 == 1][:8]):
+            p = tm.cache.tile_location(Tile(c))
+            tmp = p + '.tmp-%d' % (1234567 + i)
+            with open(tmp, 'wb') as f:
+                f.write(b'new tile')
+            writing[tmp] = (p, c)
+        renamed = []
+
+        class _Os(object):
+            def __getattr__(self, name):
+                return getattr(os, name)
+
+            def lstat(self, path, *a, **kw):
+                if path in writing and path not in renamed:
+                    renamed.append(path)
+                    os.rename(path, writing[path][0])          # the writer finishes: write_atomic's rename
+                return os.lstat(path, *a, **kw)
+
+        with patched(fsmod, 'os', _Os()), contextlib.redirect_stdout(io.StringIO()):
+            cleanup(tasks, concurrency=1, dry_run=False, skip_geoms_for_last_levels=0, progress_logger=None)
+        fresh = {c for tmp, (p, c) in writing.items() if tmp in renamed}
+        left = {c for c in expired + other if os.path.exists(tm.cache.tile_location(Tile(c)))}
+        ctx.count(('concurrent-writer', len(expired), len(renamed)))
+        kept = sorted(c for c in expired if c in left and c not in fresh)
+        lost = sorted(c for c in other if c not in left) + sorted(
+            c for c in fresh if c not in left or open(tm.cache.tile_location(Tile(c)), 'rb').read() != b'new tile')
+        if kept:
+            ctx.violation({'kind': 'concurrent-writer', 'what': 'expired-tile-kept'},
+                          'directory-walk cleanup of level 1 while a writer renames its temporary files into place: %d of %d expired tiles '
+                          'of the level are still there afterwards, e.g. %s (the walk met a temporary file that was gone)' % (
+                              len(kept), len(expired) - len(fresh), [list(c) for c in kept[:5]]), {'tiles': [list(c) for c in kept[:20]]})
+        if lost:
+            ctx.violation({'kind': 'concurrent-writer', 'what': 'tile-lost'},
+                          'directory-walk cleanup of level 1 while a writer renames its temporary files into place: tiles of other levels or '
+                          'tiles just written are gone or not what was written: %s' % [list(c) for c in lost[:5]], {'tiles': [list(c) for c in lost[:20]]})
+        if not kept and not lost and len(renamed) < 3:
+            raise tlc.MachineryError('concurrent writer: the directory walk looked at %d of %d temporary files only' % (len(renamed), len(writing)))
+    finally:
+        shutil.rmtree(d, ignore_errors=True)
+
+
 def _finish(ctx):
     rotated_coverage_case(ctx)
+    concurrent_writer_case(ctx)
     ctx.assumptions += [
         'time is compared at one-second granularity: tiles written in the second of the threshold may be kept or removed; '
         'a meta tile that only touches the coverage (no common interior) may be handled or skipped',
